@@ -126,6 +126,9 @@ class RosenbrockFunctional(Functional):
 
             def _call(self, x, out):
                 """Apply the gradient operator to the given point."""
+                if out is x:
+                    # entries of ``x`` are read after ``out`` has been written
+                    x = x.copy()
                 for i in range(1, self.domain.size - 1):
                     out[i] = (2 * c * (x[i] - x[i - 1]**2) -
                               4 * c * (x[i + 1] - x[i]**2) * x[i] -
